@@ -30,11 +30,11 @@ ASSUMPTIONS = ['the segments\' own point() is the reference (C03/C04)',
 TIERS = {
     'quick': {'shards': 14, 'random': 5000, 'timeout': 900, 'min_cases': 3000, 'max_timeouts': 10,
               'require_branches': ['cfg:crossing', 'cfg:tangent', 'cfg:endpoint', 'cfg:near-miss', 'cfg:axis-aligned',
-                                   'cfg:paths', 'cfg:ellipse-axis-line', 'cfg:far-arc-line', 'cfg:hairpin', 'far-from-origin', 'paths:requery-after-edit', 'pair:Arc-Arc', 'pair:CubicBezier-CubicBezier', 'pair:Line-Arc',
+                                   'cfg:paths', 'cfg:ellipse-axis-line', 'cfg:far-arc-line', 'cfg:hairpin', 'cfg:shallow', 'far-from-origin', 'paths:requery-after-edit', 'pair:Arc-Arc', 'pair:CubicBezier-CubicBezier', 'pair:Line-Arc',
                                    'reported>=1']},
     'thorough': {'shards': 14, 'random': 200000, 'timeout': 3400, 'min_cases': 100000, 'max_timeouts': 200,
                  'require_branches': ['cfg:crossing', 'cfg:tangent', 'cfg:endpoint', 'cfg:near-miss', 'cfg:axis-aligned',
-                                      'cfg:paths', 'cfg:ellipse-axis-line', 'cfg:far-arc-line', 'cfg:hairpin', 'far-from-origin', 'paths:requery-after-edit', 'pair:Arc-Arc', 'pair:CubicBezier-CubicBezier', 'pair:Line-Arc',
+                                      'cfg:paths', 'cfg:ellipse-axis-line', 'cfg:far-arc-line', 'cfg:hairpin', 'cfg:shallow', 'far-from-origin', 'paths:requery-after-edit', 'pair:Arc-Arc', 'pair:CubicBezier-CubicBezier', 'pair:Line-Arc',
                                       'reported>=1']},
 }
 CASE_TIMEOUT = 20
@@ -278,10 +278,23 @@ def install(ctx):
 
 
 # --------------------------------------------------------------------------
+# witnesses of repaired defects that no random class reaches reliably (found by the thorough tier)
+WITNESSES = [
+    # shallow (1.4 degree) crossing at an end point: the band of converged boxes has gaps; b.intersect(a) reported the
+    # crossing twice, a.intersect(b) once
+    (['C', [0.0, 0.0], [0.23481749443, -0.14205159343], [0.25251665841, -0.37716406787], [-0.30570302311, 0.26225827961]],
+     ['C', [-0.02939955796, -0.0314612292], [0.18125478473, -0.24195640443], [0.09894987603, -0.41181280923], [-0.17410256881, -0.12390950691]]),
+]
+
+
 def cases(ctx):
     rng = ctx.rng
     n = TIERS[ctx.tier]['random'] // ctx.nshards
     kinds = 'LQCA'
+    if ctx.shard == 0:
+        for sa, sb in WITNESSES:
+            yield {'kind': 'pair', 'a': sa, 'b': sb, 'cls': ['cfg:witness']}
+            yield {'kind': 'pair', 'a': sb, 'b': sa, 'cls': ['cfg:witness']}
     for i in range(n):
         ka, kb = kinds[i % 4], kinds[(i // 4) % 4]
         scale = 10.0 ** rng.uniform(-1, 3)
@@ -312,6 +325,24 @@ def cases(ctx):
                 sa, sb = sb, sa
             yield {'kind': 'pair', 'a': sa, 'b': sb, 'cls': ['cfg:hairpin']}
             continue
+        if cfg in ('crossing', 'endpoint') and ka in 'QC' and kb in 'QC' and rng.random() < 0.25:
+            # a shallow crossing (0.7 .. 5 degrees) of two Bezier curves, in the interior or at an end point of one:
+            # the subdivision converges on a long band of boxes there
+            made = I.make_crossing(rng, ka, kb, scale)
+            if made is not None:
+                sa, sb, tA, tB = made
+                A, B = gen.seg(sa), gen.seg(sb)
+                with monitor.suspended():
+                    ua, ub, pA = I.tangent(A, tA), I.tangent(B, tB), complex(A.point(tA))
+                if abs(ua) and abs(ub):
+                    want = math.radians(rng.uniform(0.7, 5)) * rng.choice([-1, 1])
+                    turn = cmath.phase(ua / ub) + want
+                    sb = I.rotate_spec(sb, turn, pA)
+                    if cfg == 'endpoint':
+                        with monitor.suspended():
+                            sb = I.shift_spec(sb, pA - complex(gen.seg(sb).start))
+                    yield {'kind': 'pair', 'a': sa, 'b': sb, 'cls': ['cfg:shallow', 'pair:%s%s' % (ka, kb)]}
+                    continue
         if cfg == 'far-arc-line':
             # a small unrotated arc 1e5 .. 1e6 radii away from the origin, crossed by a line close to one of the
             # arc's (or the line's) end points
